@@ -11,5 +11,8 @@ func TestVerif(t *testing.T) {
 	kernel.WorkerMain(t, map[string]kernel.Property{
 		"C04": C04{},
 		"C05": C05{},
+		"C09": C09{},
+		"C11": C11{},
+		"C19": C19{},
 	})
 }
